@@ -32,6 +32,10 @@ ACCEPTED_ALARMS = {
     'C02-r8-search-passes-squared-distance-to-termination-test.sqrt-variant': 'as above',
     'C07-r8-all-false-mask-returns-no-cells': 'C07.R4: early return of n default cells under a scan of the mask (whether the scan means "nothing selected" is a free condition)',
     'C12-r8-unconstructed-cell-index-lost-on-integrator-route': 'C12.R3: own index given at construction on both routes instead of being (re)assigned by the per-cell finalisation',
+    # benign8 = correct twins of round-9 / round-10 seeded refactorings
+    'C18-r9-cycle-capacity-reserved-from-largest-triple-entry': 'C18.R1/R4, C01.R7: the boundary cycle grows its successor array lazily inside init/try_extend (Vec::extend by a run-time range) instead of one grow() per plane — the cycle model has a fixed successor array per step',
+    'C09-r10-with-data-routes-index-the-data-by-cell-idx': 'C09.R4/C13.R5/C14.R2: the *_with_data routes pick the datum by the cell label (extra_data[cell.idx]) instead of zipping slots with data, parallel arm written out, sequential arm through the cells_iter accessor — equal only through the invariant label == slot, which these rules do not chain',
+    'C15-r10-discard-faces-keeps-cleared-buffers': 'C15.R2/R7: discard_faces leaves Some(empty) buffers that with_faces takes and appends to — equivalent only because nothing reads the two fields in the WithoutFaces state; the rules ask for None / a fresh list',
 }
 
 
@@ -41,7 +45,7 @@ def corpus():
     if os.path.exists(p):
         out.extend(json.load(open(p)))
     # refactorings written by independent sub-agents (DESIGN §14); ACCEPTED_ALARMS are documented weak spots of the analysis, not of the code
-    for d in ('benign2', 'benign3', 'benign4', 'benign5', 'benign6', 'benign7'):
+    for d in ('benign2', 'benign3', 'benign4', 'benign5', 'benign6', 'benign7', 'benign8'):
         bd = os.path.join(V, 'selftest', d)
         if os.path.isdir(bd):
             for n in sorted(os.listdir(bd)):
